@@ -1,7 +1,7 @@
 """C17 - verdicts do not depend on the order of SAN entries or of extensions."""
 import common
 
-THEOREMS = ["c17_first_offender_perm", "c17_label_lints_perm", "c17_na_first_refuted", "c17_find_ext_perm", "c17_name_lints_perm", "c17_name_lints_range", "c17_name_twins_agree", "c17_gn_lints_perm", "c17_raw_lints_perm", "c17_cn_san_lints_perm", "c17_cn_exact_spec", "c17_subject_length_lints_perm", "c17_subject_length_spec", "c17_arpa_lints_perm"]
+THEOREMS = ["c17_first_offender_perm", "c17_label_lints_perm", "c17_na_first_refuted", "c17_find_ext_perm", "c17_name_lints_perm", "c17_name_lints_range", "c17_name_twins_agree", "c17_gn_lints_perm", "c17_raw_lints_perm", "c17_cn_san_lints_perm", "c17_cn_exact_spec", "c17_subject_length_lints_perm", "c17_subject_length_spec", "c17_arpa_lints_perm", "c17_presence_lints_perm", "c17_url_lints_perm", "c17_empty_name_perm", "c17_empty_name_spec", "c17_tor_perm", "c17_tor_spec"]
 
 # lints that walk c.Extensions themselves (reviewed: they look extensions up by OID or test every element)
 ALLOW_EXT_READERS = None  # recorded, not gated: the dynamic permutation run decides
@@ -46,6 +46,37 @@ def run(ctx):
     common.require_outcomes(ctx, "cnsan", d["cases"].get("cnsan", []), [{"1", "3", "6"}, {"1", "3", "6"}, {"1", "3", "4"}, {"1", "3", "6"}])
     if not mon:
         common.report_disagreements(ctx, "cnsan", fc, "Kernels.CnSan (c17_cn_san_lints_perm applies to the model only)", [])
+    theader = ("From ZL Require Import Base.Bytes Base.Corr Kernels.Tor.\nFrom Coq Require Import ZArith List.\nImport ListNotations.\nOpen Scope Z_scope.\n"
+               "Definition chkt (c : tor_view * Z) : bool := l_tor (fst c) =? snd c.\n")
+    ft = common.corr_stream(ctx, "tor", d["cases"].get("tor", []), theader, "chkt",
+                            "Tor.l_tor (e_ext_tor_service_descriptor_hash_invalid, status; net/url as oracle per descriptor) vs the real lint by direct call")
+    common.require_outcomes(ctx, "tor", d["cases"].get("tor", []), [{"3", "6"}])
+    if not mon:
+        common.report_disagreements(ctx, "tor", ft, "Kernels.Tor.l_tor (c17_tor_perm applies to the model only)", [])
+    dheader = ("From ZL Require Import Base.Bytes Base.Corr Kernels.Der.\nFrom Coq Require Import ZArith NArith List.\nImport ListNotations.\nOpen Scope Z_scope.\n"
+               "Definition chkd (c : bytes * Z * Z) : bool := match c with (v, a, b) => (l_empty_name v =? a) && (l_empty_name v =? b) end.\n")
+    fd = common.corr_stream(ctx, "der", d["cases"].get("der", []), dheader, "chkd",
+                            "Der.l_empty_name (e_ext_san_empty_name and e_ext_ian_empty_name with zcrypto's DER tag/length reader, modelled in full) vs the real lints by direct call on built extension values", shard=250)
+    common.require_outcomes(ctx, "der", d["cases"].get("der", []), [{"1", "3", "6", "7"}, {"1", "3", "6", "7"}])
+    if not mon:
+        common.report_disagreements(ctx, "der", fd, "Kernels.Der.l_empty_name (c17_empty_name_perm applies to the model only)", [])
+    uheader = ("From ZL Require Import Base.Bytes Base.Corr Kernels.Urls.\nFrom Coq Require Import ZArith List.\nImport ListNotations.\nOpen Scope Z_scope.\n"
+               "Definition fold_ascii_u (a b : bytes) : bool := beqb (map lower_ascii a) (map lower_ascii b).\n"
+               "Fixpoint zl_equ (m o : list Z) : bool := match m, o with [], [] => true | x :: m', y :: o' => (x =? y) && zl_equ m' o' | _, _ => false end.\n"
+               "Definition chku (c : url_view * list Z) : bool := zl_equ (all_url_lints fold_ascii_u (fst c)) (snd c).\n")
+    fu = common.corr_stream(ctx, "urls", d["cases"].get("urls", []), uheader, "chku",
+                            "Urls.all_url_lints (fifteen lints over the AIA / CDP URL lists; net/url as oracle per URL) vs the real lints by direct call")
+    common.require_outcomes(ctx, "urls", d["cases"].get("urls", []), [{"3", "5"}, {"3", "5"}] + [{"3", "6"}] * 11 + [{"3", "5"}, {"3", "5"}])
+    if not mon:
+        common.report_disagreements(ctx, "urls", fu, "Kernels.Urls.all_url_lints (c17_url_lints_perm applies to the model only)", [])
+    pheader = ("From ZL Require Import Base.Bytes Base.Corr Kernels.Scope Kernels.SubjPresence.\nFrom Coq Require Import ZArith List.\nImport ListNotations.\nOpen Scope Z_scope.\n"
+               "Fixpoint zl_eqp (m o : list Z) : bool := match m, o with [], [] => true | x :: m', y :: o' => (x =? y) && zl_eqp m' o' | _, _ => false end.\n"
+               "Definition chkp (c : subj_view * list Z) : bool := zl_eqp (all_presence_lints (fst c)) (snd c).\n")
+    fp = common.corr_stream(ctx, "presence", d["cases"].get("presence", []), pheader, "chkp",
+                            "SubjPresence.all_presence_lints (twenty-three subject-attribute presence lints of the TLS BRs) vs the real lints by direct call")
+    common.require_outcomes(ctx, "presence", d["cases"].get("presence", []), [{"3", "6"}] * 19 + [{"3", "4"}, {"3", "5"}, {"3", "6"}, {"3", "5"}])
+    if not mon:
+        common.report_disagreements(ctx, "presence", fp, "Kernels.SubjPresence.all_presence_lints (c17_presence_lints_perm applies to the model only)", [])
     lheader = ("From ZL Require Import Base.Bytes Base.Corr Kernels.SubjLen.\nFrom Coq Require Import ZArith List.\nImport ListNotations.\nOpen Scope Z_scope.\n"
                "Fixpoint zl_eq (m o : list Z) : bool := match m, o with [], [] => true | x :: m', y :: o' => (x =? y) && zl_eq m' o' | _, _ => false end.\n"
                "Definition chkl (c : list (list bytes) * list Z) : bool := zl_eq (all_len_lints (fst c)) (snd c).\n")
